@@ -151,10 +151,17 @@ func (x *XObject) Count() int {
 
 // Get retrieves the named property
 func (x *XObject) Get(key string) (XValue, bool) {
+	props := x.properties()
+
+	// an exact match always wins, otherwise the first case-insensitive match in sorted order
+	if v, found := props[key]; found {
+		return v, true
+	}
+
 	key = strings.ToLower(key)
-	for p, v := range x.properties() {
+	for _, p := range x.Properties() {
 		if strings.ToLower(p) == key {
-			return v, true
+			return props[p], true
 		}
 	}
 
